@@ -600,6 +600,22 @@ def check_odd_tag(case):
 
     keys, n = case["keys"], case["nrows"]
     labs = ["tag:" + case["cls"], "kind:" + case["kind"]]
+    if case["cls"] in ("blank", "tab", "newline", "trailing-blank"):
+        # the same text as a *block name*: 'data_a b' would end the name at the blank
+        odd = next(k for k in keys if k != k.strip() or any(c.isspace() for c in k))
+        for how in ("constructor", "setter"):
+            try:
+                if how == "constructor":
+                    blk = cif.Block(odd, [{"a": 1}])
+                else:
+                    blk = cif.Block("fine", [{"a": 1}])
+                    blk.name = odd
+                text = write_doc([blk])
+            except Exception:  # noqa: BLE001 - refusal is the expected outcome
+                continue
+            raise Violation("odd-block-name-written", f"a block named {odd!r} (via the {how}) was written instead of "
+                                                      f"refused", {"text": text[:300]})
+        labs.append("block-name-refused")
     try:
         if case["kind"] == "chunk":
             item = cif.Chunk({k: i for i, k in enumerate(keys)})
